@@ -670,14 +670,36 @@ type c13Failure struct {
 	History  []c13Step `json:"history"`
 }
 
-// viewsOnly strips the tree digest from a dump.
-func c13Fresh(text string) (string, error) {
+// c13Fresh decodes the text again and dumps every view of the fresh document (plus the unique
+// identifiers of its individuals, which are recorded but not judged).
+func c13Fresh(text string) (string, string, error) {
 	fresh, err := gedcom.NewDocumentFromString(text)
 	if err != nil {
-		return "", err
+		return "", "", err
 	}
-	return c13Dump(fresh), nil
+	return c13Dump(fresh), c13UIDs(fresh), nil
 }
+
+// c13UIDs: IndividualNode.UniqueIdentifiers() of every individual record.  The property does not
+// name this view; its staleness is reported as a note, never as a failure.
+func c13UIDs(doc *gedcom.Document) (s string) {
+	defer func() {
+		if r := recover(); r != nil {
+			s = fmt.Sprintf("panic:%v", r)
+		}
+	}()
+	var parts []string
+	for i, n := range doc.Individuals() {
+		ids := n.UniqueIdentifiers().Strings()
+		sort.Strings(ids)
+		parts = append(parts, fmt.Sprintf("%d:%s", i, strings.Join(ids, "+")))
+	}
+	return strings.Join(parts, " ")
+}
+
+var c13UUIDs = []string{"11111111-2222-3333-4444-555555555555", "aaaaaaaa-bbbb-cccc-dddd-eeeeeeeeeeee"}
+
+var c13UIDNoted bool
 
 type c13Runner struct {
 	c       *Ctx
@@ -809,8 +831,17 @@ func (r *c13Runner) do(o c13Op) {
 				r.fail("", "a read changed a view: "+o.apiName(), r.label(i)+" = "+x, "before the read: "+y)
 			}
 		}
-		fresh, err := c13Fresh(text)
+		fresh, freshUIDs, err := c13Fresh(text)
 		r.emit(c13Op{Kind: "foreign", Sub: "Decode"}) // the decode above reset the node cache
+		if err == nil {
+			if live := c13UIDs(r.d.doc); live != freshUIDs {
+				c.Count("not-judged:UniqueIdentifiers-stale")
+				if !c13UIDNoted {
+					c13UIDNoted = true
+					c.Notes = append(c.Notes, fmt.Sprintf("not judged (the property does not name this view): IndividualNode.UniqueIdentifiers() is cached and never invalidated; after %s it was %q where a fresh decode gives %q (document %q)", o.String(), live, freshUIDs, r.text0))
+				}
+			}
+		}
 		if err != nil {
 			c.Count("fresh-decode-error")
 		} else if fresh != after {
@@ -826,6 +857,16 @@ func (r *c13Runner) do(o c13Op) {
 }
 
 func (r *c13Runner) finish() {
+	// views_fresh_decode, evaluated on both sides for the final state: every view of the live
+	// document against the document rebuilt from its text
+	if !r.failed && r.checkS {
+		obs := "r=0"
+		if fresh, _, err := c13Fresh(r.d.doc.String()); err == nil && fresh == c13Dump(r.d.doc) {
+			obs = "r=1"
+		}
+		r.req.WriteString(" ; rebuild")
+		r.obs = append(r.obs, obs)
+	}
 	r.c.Tie(r.req.String(), strings.Join(r.obs, " "))
 	r.c.Eval()
 }
@@ -847,6 +888,9 @@ func c13Graph(r *Rand, nI, nF int) string {
 		}
 		if r.Chance(1, 2) {
 			fmt.Fprintf(&b, "1 SEX %s\n", r.Pick([]string{"M", "F"}))
+		}
+		if r.Chance(1, 3) {
+			fmt.Fprintf(&b, "1 _UID %s\n", r.Pick(c13UUIDs))
 		}
 		if r.Chance(2, 3) {
 			b.WriteString("1 BIRT\n")
@@ -929,7 +973,7 @@ func (d *c13Doc) randomOp(r *Rand, fresh *int) c13Op {
 	for {
 		switch r.Intn(20) {
 		case 0, 1:
-			tag := r.Pick([]string{"NAME", "NAME", "BIRT", "DEAT", "NOTE", "FAMS", "FAMC", "MARR", "SEX"})
+			tag := r.Pick([]string{"NAME", "NAME", "BIRT", "DEAT", "NOTE", "FAMS", "FAMC", "MARR", "SEX", "_UID"})
 			val := ""
 			switch tag {
 			case "NAME":
@@ -938,6 +982,8 @@ func (d *c13Doc) randomOp(r *Rand, fresh *int) c13Op {
 				val = "n"
 			case "SEX":
 				val = "M"
+			case "_UID":
+				val = r.Pick(c13UUIDs)
 			case "FAMS", "FAMC":
 				val = "@F1@"
 			}
@@ -1134,40 +1180,321 @@ func c13AllReads() []c13Op {
 // ---------------------------------------------------------------------------------------------
 // publish runs in a child process: a panic in one of its goroutines would kill the harness
 
+// c13FullDump is the Go-only dump used to judge read-only operations: EVERY view of EVERY record —
+// for every node at every depth NodesWithTag for each tag that occurs among its children (and for
+// the fixed probe tags of its kind), every individual's names/families/spouses/parents/children,
+// every family's husband/wife/children, the record lists and every pointer — elements by identity
+// (position in the tree) and in order.
+func c13FullDump(doc *gedcom.Document) (out []string, labels []string) {
+	defer func() {
+		c13PathCache = nil
+		if r := recover(); r != nil {
+			out = append(out, fmt.Sprintf("panic:%v", r))
+			labels = append(labels, "panic")
+		}
+	}()
+	c13PathCache = c13Paths(doc)
+	add := func(label, v string) {
+		out = append(out, v)
+		labels = append(labels, label)
+	}
+	add("tree digest", c13Digest(doc))
+	add("doc.Individuals()", c13View(doc, "inds", nil, ""))
+	add("doc.Families()", c13View(doc, "fams", nil, ""))
+	var walk func(n gedcom.Node, name string, depth int)
+	walk = func(n gedcom.Node, name string, depth int) {
+		if depth > 32 {
+			return
+		}
+		tags := []string{}
+		seen := map[string]bool{}
+		push := func(t string) {
+			if !seen[t] {
+				seen[t] = true
+				tags = append(tags, t)
+			}
+		}
+		switch n.(type) {
+		case *gedcom.IndividualNode:
+			for _, t := range []string{"NAME", "SEX", "BIRT", "BAPM", "DEAT", "BURI", "FAMS", "FAMC", "_UID"} {
+				push(t)
+			}
+		case *gedcom.FamilyNode:
+			for _, t := range []string{"HUSB", "WIFE", "CHIL", "MARR", "DIV"} {
+				push(t)
+			}
+		}
+		for _, k := range n.Nodes() {
+			push(k.Tag().Tag())
+		}
+		for _, t := range tags {
+			add("NodesWithTag("+name+","+t+")", c13View(doc, "nwt", n, t))
+		}
+		for i, k := range n.Nodes() {
+			walk(k, fmt.Sprintf("%s.%d(%s)", name, i, k.Tag().Tag()), depth+1)
+		}
+	}
+	viewName := map[string]string{"if": "Families()", "sp": "Spouses()", "pa": "Parents()", "ch": "Children()",
+		"hu": "Husband()", "wi": "Wife()", "fc": "Children()"}
+	for ri, r := range doc.Nodes() {
+		name := fmt.Sprintf("root#%d(%s @%s@)", ri, r.Tag().Tag(), r.Pointer())
+		if p := r.Pointer(); p != "" {
+			add(fmt.Sprintf("doc.NodeByPointer(%q)", p), c13View(doc, "bp", nil, p))
+		}
+		walk(r, name, 0)
+		if i, ok := r.(*gedcom.IndividualNode); ok {
+			var names []gedcom.Node
+			for _, n := range i.Names() {
+				names = append(names, n)
+			}
+			add("individual "+name+".Names()", c13Show(doc, names))
+			add("individual "+name+".AllEvents()", c13Show(doc, c13Nodes(i.AllEvents())))
+			for _, v := range []string{"if", "sp", "pa", "ch"} {
+				add("individual "+name+"."+viewName[v], c13View(doc, v, r, ""))
+			}
+		}
+		if _, ok := r.(*gedcom.FamilyNode); ok {
+			for _, v := range []string{"hu", "wi", "fc"} {
+				add("family "+name+"."+viewName[v], c13View(doc, v, r, ""))
+			}
+		}
+	}
+	return out, labels
+}
+
+// c13DumpDiff returns the first view on which two full dumps differ ("" = equal).
+func c13DumpDiff(a, b, labels []string) string {
+	for i := 0; i < len(a) || i < len(b); i++ {
+		x, y := "(missing)", "(missing)"
+		if i < len(a) {
+			x = a[i]
+		}
+		if i < len(b) {
+			y = b[i]
+		}
+		if x != y {
+			l := fmt.Sprintf("view #%d", i)
+			if i < len(labels) {
+				l = labels[i]
+			}
+			return fmt.Sprintf("%s = %s, expected %s", l, x, y)
+		}
+	}
+	return ""
+}
+
+// people of a marriage graph: "L" living (born 1990, no death), "D" deceased (1900-1970), "U" undated (= living)
+func c13Person(b *strings.Builder, ptr, name, status string) {
+	fmt.Fprintf(b, "0 @%s@ INDI\n1 NAME %s\n", ptr, name)
+	switch status {
+	case "L":
+		b.WriteString("1 BIRT\n2 DATE 1 Jan 1990\n")
+	case "D":
+		b.WriteString("1 BIRT\n2 DATE 1 Jan 1900\n1 DEAT\n2 DATE 1 Jan 1970\n")
+	}
+}
+
+// c13MarriageDoc: every central person (deceased / living / undated) with 2 and with 3 spouses in
+// every living/deceased ordering of the spouses, alternately as husband and as wife, each family
+// with 0-2 children of mixed status.  One document holds them all, so one publish covers every case.
+func c13MarriageDoc(statuses []string, maxSpouses int) string {
+	var people, fams strings.Builder
+	np, nf := 0, 0
+	person := func(status string) string {
+		np++
+		ptr := fmt.Sprintf("P%d", np)
+		c13Person(&people, ptr, fmt.Sprintf("N%d /S%d/", np, np%7), status)
+		return ptr
+	}
+	for _, cs := range statuses {
+		for k := 2; k <= maxSpouses; k++ {
+			for pat := 0; pat < 1<<uint(k); pat++ {
+				centre := person(cs)
+				for sidx := 0; sidx < k; sidx++ {
+					st := "D"
+					if pat>>uint(sidx)&1 == 1 {
+						st = "L"
+					}
+					spouse := person(st)
+					nf++
+					fmt.Fprintf(&fams, "0 @F%d@ FAM\n", nf)
+					if (np+pat)%2 == 0 {
+						fmt.Fprintf(&fams, "1 HUSB @%s@\n1 WIFE @%s@\n", centre, spouse)
+					} else {
+						fmt.Fprintf(&fams, "1 HUSB @%s@\n1 WIFE @%s@\n", spouse, centre)
+					}
+					if nf%3 == 0 {
+						fams.WriteString("1 MARR\n2 DATE 1 Jan 1925\n")
+					}
+					for c := 0; c < nf%3; c++ {
+						cst := []string{"L", "D", "U"}[(nf+c)%3]
+						fmt.Fprintf(&fams, "1 CHIL @%s@\n", person(cst))
+					}
+				}
+			}
+		}
+	}
+	return "0 HEAD\n" + people.String() + fams.String() + "0 TRLR\n"
+}
+
+// c13RandomMarriages: random people with 1-3 spouses each, random statuses and orders.
+func c13RandomMarriages(r *Rand, n int) string {
+	var people, fams strings.Builder
+	st := func() string { return r.Pick([]string{"L", "D", "D", "U"}) }
+	np, nf := 0, 0
+	var all []string
+	person := func() string {
+		np++
+		ptr := fmt.Sprintf("P%d", np)
+		c13Person(&people, ptr, fmt.Sprintf("N%d /S%d/", np, np%5), st())
+		all = append(all, ptr)
+		return ptr
+	}
+	for i := 0; i < n; i++ {
+		centre := person()
+		for k := r.Range(1, 3); k > 0; k-- {
+			spouse := ""
+			if len(all) > 3 && r.Chance(1, 4) {
+				spouse = all[r.Intn(len(all))] // remarriage inside the graph
+			} else {
+				spouse = person()
+			}
+			nf++
+			fmt.Fprintf(&fams, "0 @F%d@ FAM\n", nf)
+			if r.Bool() {
+				fmt.Fprintf(&fams, "1 HUSB @%s@\n1 WIFE @%s@\n", centre, spouse)
+			} else {
+				fmt.Fprintf(&fams, "1 HUSB @%s@\n1 WIFE @%s@\n", spouse, centre)
+			}
+			for c := r.Intn(3); c > 0; c-- {
+				if len(all) > 3 && r.Chance(1, 5) {
+					fmt.Fprintf(&fams, "1 CHIL @%s@\n", all[r.Intn(len(all))])
+				} else {
+					fmt.Fprintf(&fams, "1 CHIL @%s@\n", person())
+				}
+			}
+		}
+	}
+	return "0 HEAD\n" + people.String() + fams.String() + "0 TRLR\n"
+}
+
+// the read-only operations that must run in a child process (goroutines that may panic)
+func c13ChildStages(doc *gedcom.Document, text string) []struct {
+	name string
+	run  func()
+} {
+	publish := func(vis html.LivingVisibility) func() {
+		return func() {
+			opts := &html.PublishShowOptions{ShowIndividuals: true, ShowPlaces: true, ShowFamilies: true,
+				ShowSurnames: true, ShowSources: true, ShowStatistics: true, LivingVisibility: vis}
+			if err := html.NewPublisher(doc, opts).Publish(&c13MemWriter{}, 2); err != nil {
+				fmt.Println("publish-error " + err.Error())
+			}
+		}
+	}
+	diffPage := func(vis html.LivingVisibility) func() {
+		return func() {
+			other, err := gedcom.NewDocumentFromString(text)
+			if err != nil {
+				return
+			}
+			opts := gedcom.NewIndividualNodesCompareOptions()
+			cmp := doc.Individuals().Compare(other.Individuals(), opts)
+			page := html.NewDiffPage(cmp, &gedcom.FilterFlags{}, "", html.DiffPageShowAll,
+				html.DiffPageSortWrittenName, nil, opts, vis)
+			var b bytes.Buffer
+			page.WriteHTMLTo(&b)
+		}
+	}
+	return []struct {
+		name string
+		run  func()
+	}{
+		{"publish(show)", publish(html.LivingVisibilityShow)},
+		{"publish(hide)", publish(html.LivingVisibilityHide)},
+		{"publish(placeholder)", publish(html.LivingVisibilityPlaceholder)},
+		{"diff page(show)", diffPage(html.LivingVisibilityShow)},
+		{"diff page(hide)", diffPage(html.LivingVisibilityHide)},
+	}
+}
+
 func init() {
 	workers["c13publish"] = func(args []string) int {
-		text, err := os.ReadFile(args[0])
+		raw, err := os.ReadFile(args[0])
 		if err != nil {
 			return 2
 		}
-		doc, err := gedcom.NewDocumentFromString(string(text))
+		text := string(raw)
+		doc, err := gedcom.NewDocumentFromString(text)
 		if err != nil {
 			fmt.Println("decode-error")
 			return 0
 		}
-		c13Dump(doc)
-		before := c13Dump(doc)
-		textBefore := doc.String()
-		for _, vis := range []html.LivingVisibility{html.LivingVisibilityShow, html.LivingVisibilityHide, html.LivingVisibilityPlaceholder} {
-			opts := &html.PublishShowOptions{ShowIndividuals: true, ShowPlaces: true, ShowFamilies: true,
-				ShowSurnames: true, ShowSources: true, ShowStatistics: true, LivingVisibility: vis}
-			w := &c13MemWriter{}
-			if err := html.NewPublisher(doc, opts).Publish(w, 1); err != nil {
-				fmt.Println("publish-error " + err.Error())
+		c13FullDump(doc) // warm: the first NodesWithTag on a node only registers it
+		for _, st := range c13ChildStages(doc, text) {
+			before, labels := c13FullDump(doc)
+			textBefore := doc.String()
+			st.run()
+			after, _ := c13FullDump(doc)
+			if doc.String() != textBefore {
+				fmt.Println("IMPURE " + st.name + " changed the document text")
+				return 0
 			}
-		}
-		after := c13Dump(doc)
-		if doc.String() != textBefore {
-			fmt.Println("TEXT-CHANGED")
-			return 0
-		}
-		if after != before {
-			i, x, y := c13FirstDiff(after, before)
-			fmt.Printf("VIEW-CHANGED view #%d %s was %s\n", i, x, y)
-			return 0
+			if d := c13DumpDiff(after, before, labels); d != "" {
+				fmt.Println("IMPURE after " + st.name + ": " + d + " (= before the read)")
+				return 0
+			}
+			if fresh, err := gedcom.NewDocumentFromString(textBefore); err == nil {
+				fd, _ := c13FullDump(fresh)
+				again, _ := c13FullDump(doc)
+				if d := c13DumpDiff(again, fd, labels); d != "" {
+					fmt.Println("IMPURE after " + st.name + ": " + d + " (= fresh decode)")
+					return 0
+				}
+			}
 		}
 		fmt.Println("pure")
 		return 0
+	}
+}
+
+// c13ReadPurity runs every in-process read-only operation on a document and compares every view of
+// every record (c13FullDump) and the text before and after, and finally with a fresh decode.
+func c13ReadPurity(c *Ctx, text string) {
+	doc, err := gedcom.NewDocumentFromString(text)
+	if err != nil {
+		c.Count("generator-decode-error")
+		return
+	}
+	d := &c13Doc{doc: doc, other: gedcom.NewDocument()}
+	c13FullDump(doc)
+	for _, rd := range c13AllReads() {
+		before, labels := c13FullDump(doc)
+		textBefore := doc.String()
+		func() {
+			defer func() {
+				if r := recover(); r != nil {
+					c.Oracle("", "operation panicked: "+rd.Sub, c13Failure{Document: text}, fmt.Sprint(r), "no panic")
+				}
+			}()
+			d.blackBox(rd.Sub)
+		}()
+		after, _ := c13FullDump(doc)
+		c.Eval()
+		c.Count("read-purity=" + rd.Sub)
+		in := c13Failure{Document: text, History: []c13Step{{Op: "read:" + rd.Sub}}}
+		if doc.String() != textBefore {
+			c.Oracle("", "a read changed the document text: "+rd.Sub, in, doc.String(), textBefore)
+		} else if df := c13DumpDiff(after, before, labels); df != "" {
+			c.Oracle("", "a read changed a view: "+rd.Sub, in, df, "unchanged")
+		}
+	}
+	if fresh, err := gedcom.NewDocumentFromString(doc.String()); err == nil {
+		fd, _ := c13FullDump(fresh)
+		live, labels := c13FullDump(doc)
+		if df := c13DumpDiff(live, fd, labels); df != "" {
+			c.Oracle("", "after the read-only operations a view differs from a fresh decode", c13Failure{Document: text}, df, "equal")
+		}
 	}
 }
 
@@ -1208,12 +1535,12 @@ func c13Publish(c *Ctx, text string, history []c13Step) {
 		lines := strings.Split(res, "\n")
 		c.Notes = append(c.Notes, "publish crashed in the child process ("+lines[0]+"); purity not decided for that document")
 	case strings.HasSuffix(res, "pure"):
-		c.Count("publish=pure")
+		c.Count("publish+diffpage=pure")
 	case strings.Contains(res, "decode-error"):
 		c.Count("publish=decode-error")
 	default:
-		c.Count("publish=impure")
-		c.Oracle("", "publishing changed the document", c13Failure{Document: text, History: history}, res, "pure")
+		c.Count("publish+diffpage=impure")
+		c.Oracle("", "publishing / rendering the diff page changed the document", c13Failure{Document: text, History: history}, res, "pure")
 	}
 }
 
@@ -1221,7 +1548,7 @@ func c13Publish(c *Ctx, text string, history []c13Step) {
 
 func init() {
 	runners["C13"] = func(c *Ctx) {
-		c.Rule = "histories of public-API edits and reads on one document; after every op every view named in the property is dumped (twice more after the global node cache was reset by the oracle's re-decode, so caches are warm at the next edit). Streams: exhaustive sequences over a 9-op alphabet on a 2-person/1-family document (quick: all sequences of <= 4 ops; thorough: <= 5 ops, plus <= 3 ops over a 13-op alphabet), random histories of 10-200 ops on random family graphs, every read-only operation inserted at every position of base histories, publish in a child process; distinct = (op kind, did a view change, rejected?)"
+		c.Rule = "histories of public-API edits and reads on one document; after every op every view named in the property is dumped (twice more after the global node cache was reset by the oracle's re-decode, so caches are warm at the next edit). Streams: exhaustive sequences over a 9-op alphabet on a 2-person/1-family document (quick: all sequences of <= 4 ops; thorough: <= 5 ops, plus <= 3 ops over a 13-op alphabet), random histories of 10-200 ops on random family graphs, every read-only operation inserted at every position of base histories; read-only operations (in-process ones, and publish x 3 living modes + diff page rendering in a child process) on marriage graphs where people have 2-3 spouses in every living/deceased order, comparing every view of every record before/after and with a fresh decode; distinct = (op kind, did a view change, rejected?)"
 		// facts that could not be located are tied by correspondence only
 		if _, facts, err := c13Facts(); err == nil {
 			var un []string
@@ -1369,6 +1696,32 @@ func init() {
 			c.Count("stream=read-at-every-position")
 		}
 		c13Publish(c, c13SmallDoc, nil)
+
+		// 4. read-only operations on marriage graphs: people with 2-3 spouses in every living/deceased
+		// order, children of mixed status; every view of every record before/after
+		// smallest case first: a deceased person married to a living and then to a deceased spouse
+		c13Publish(c, "0 @I1@ INDI\n1 NAME A /X/\n1 DEAT\n2 DATE 1920\n0 @I2@ INDI\n1 NAME B /Y/\n0 @I3@ INDI\n1 NAME C /Z/\n1 DEAT\n2 DATE 1900\n"+
+			"0 @F1@ FAM\n1 HUSB @I1@\n1 WIFE @I2@\n1 CHIL @I4@\n0 @F2@ FAM\n1 HUSB @I1@\n1 WIFE @I3@\n0 @I4@ INDI\n1 NAME D /X/\n", nil)
+		marriage := c13MarriageDoc([]string{"D", "L", "U"}, 3)
+		c13Publish(c, marriage, nil)
+		c13ReadPurity(c, c13MarriageDoc([]string{"D", "L"}, 2))
+		if !c.Quick() {
+			c13ReadPurity(c, marriage)
+		}
+		for i := 0; i < c.N(3, 60); i++ {
+			rr := c.R.Fork("marriages")
+			text := c13RandomMarriages(rr, rr.Range(2, c.N(6, 25)))
+			c13Publish(c, text, nil)
+			c13ReadPurity(c, text)
+			// and through the model: a read, with the full step protocol around it
+			if r, err := c13NewRunner(c, text); err == nil {
+				for _, rd := range c13AllReads() {
+					r.do(rd)
+				}
+				r.finish()
+			}
+		}
+		c.Count("stream=marriage-graphs")
 	}
 }
 
